@@ -258,6 +258,15 @@ def export_tables():
               "    raise NotImplementedError(error_str)"]
     g_tail = (":\n    err_msg = 'Exporting controlled gates is not implemented yet.'\n    raise NotImplementedError(err_msg)\n"
               "else:\n    qasm_out.output(qasm_out._qasm_str(qasm_gate, self.controls, self.targets, self.arg_value))")
+    # ... and, between the name lookup and the classical condition, the refusal of a `control_value` other than "all
+    # control qubits 1" (the QASM gate is chosen by the name alone)
+    g_cv = ("if self.control_value is not None and (self.controls is None or len(self.controls) == 0 or "
+            "self.control_value != 2 ** len(self.controls) - 1):\n"
+            "    err_msg = 'Exporting a gate with control_value={} is not implemented: a QASM gate acts when all the "
+            "control qubits are 1.'.format(self.control_value)\n    raise NotImplementedError(err_msg)")
+    cv_checked = len(gst) == 4 and gst[2] == g_cv
+    if cv_checked:
+        gst = gst[:2] + gst[3:]
     if gst == g_head + ["if self.classical_controls" + g_tail]:
         cctrl_len = False
     elif gst == g_head + ["if self.classical_controls is not None and len(self.classical_controls) > 0" + g_tail]:
@@ -266,6 +275,7 @@ def export_tables():
         raise TranslatorError(f"Gate._to_qasm not recognised: {gst}")
     return {
         "cctrl_len": cctrl_len,
+        "cv_checked": cv_checked,
         "qubit_containers": qubit_containers,
         "pads_exp": pads_exp,
         "name_map": name_map, "defns": defns, "comment_fmt": split_fmt(comment_fmt, "definition comment", 1),
@@ -685,6 +695,9 @@ def render():
     A("is truthy — a numpy array `[0]` is falsy and the gate is exported without its condition; the model's")
     A("`cctrl : Option (List Nat)` stands for a list, the harness sends other containers only to a tree with this flag) -/")
     A("def cctrlLenTest : Bool := " + ("true" if e["cctrl_len"] else "false"))
+    A("/-- `Gate._to_qasm` refuses (NotImplementedError) a gate whose `control_value` is not None and not 2**len(controls)-1")
+    A("(otherwise `control_value` is not read by the exporter at all: the QASM gate is chosen by the name alone) -/")
+    A("def exportChecksCv : Bool := " + ("true" if e["cv_checked"] else "false"))
     A("/-- `_qasm_str`: container types joined element-wise -/")
     A("def seqKinds : List Str := " + lean_list([lean_str(k) for k in e["seq_kinds"]]))
     A("")
